@@ -234,13 +234,42 @@ fn c20_stats_equal_the_aggregate_when_another_target_is_cached() {
 /// (whether the earlier entry is for the same target is concrete per harness: together they took
 /// 445 s, too long for the quick tier)
 fn stats_case(prev_same_target: bool) {
+    stats_case_with(prev_same_target, (kani::any(), kani::any(), kani::any()), (kani::any(), kani::any(), kani::any()))
+}
+
+/// quick-tier variants: the estimate VALUES are concrete (distinct small integers), kinds and presence
+/// symbolic — proving (a + b) - a == b over symbolic floats is what made the symbolic-valued
+/// obligation take 7-13 minutes; the pairing of increments and decrements does not depend on the values
+#[kani::proof]
+#[kani::unwind(22)]
+#[kani::stub(std::time::Instant::now, clock::mock_now)]
+#[kani::stub(getrandom::fill, fill_const)]
+#[kani::stub(ClosestNodes::dht_size_estimate, stub_dht_size_estimate)]
+#[kani::stub(ClosestNodes::subnets_count, stub_subnets_count)]
+#[kani::stub(Id::is_valid_for_ip, stub_valid)]
+fn c20_stats_pairing_when_the_same_target_is_cached_again() {
+    stats_case_with(true, (3, 5, 7), (11, 13, 17))
+}
+
+#[kani::proof]
+#[kani::unwind(22)]
+#[kani::stub(std::time::Instant::now, clock::mock_now)]
+#[kani::stub(getrandom::fill, fill_const)]
+#[kani::stub(ClosestNodes::dht_size_estimate, stub_dht_size_estimate)]
+#[kani::stub(ClosestNodes::subnets_count, stub_subnets_count)]
+#[kani::stub(Id::is_valid_for_ip, stub_valid)]
+fn c20_stats_pairing_when_another_target_is_cached() {
+    stats_case_with(false, (3, 5, 7), (11, 13, 17))
+}
+
+fn stats_case_with(prev_same_target: bool, prev_vals: (u8, u8, u8), new_vals: (u8, u8, u8)) {
     let mut c = core(true);
     let target = id1(0x10);
     // pre-state: optionally one cached lookup (for the same target or another one), with the
     // statistics that the invariant prescribes for it
     let has_prev: bool = kani::any();
     let pk: u8 = kani::any::<u8>() % 4;
-    let (pd, pr, ps): (u8, u8, u8) = (kani::any(), kani::any(), kani::any());
+    let (pd, pr, ps): (u8, u8, u8) = prev_vals;
     let prev_target = if prev_same_target { target } else { id1(0x90) };
     if has_prev {
         c.cached_iterative_queries.put(prev_target, cached(pk, prev_target, pd as f64, pr as f64, ps));
@@ -250,7 +279,7 @@ fn stats_case(prev_same_target: bool) {
     }
     // the finished lookup
     let k: u8 = kani::any::<u8>() % 4;
-    let (d, r, s): (u8, u8, u8) = (kani::any(), kani::any(), kani::any());
+    let (d, r, s): (u8, u8, u8) = new_vals;
     unsafe {
         EST_CLOSEST = d as f64;
         EST_RESP = r as f64;
